@@ -37,6 +37,13 @@ dict, a closure over a rebound variable, a callable instance) and changes the ra
 uses the ranking in force at the moment of the call.  Live objects are built under the default options or
 under allow_mutable_automata=True from plain / aliased / copied containers; the oracle and the model see the
 frozen twin.  A failing chain is minimised and recorded as a concrete replay.
+
+Round 6 (seeded change C14_w6m2: the traversal rewritten as a recursive generator): DEEP searches — nothing in the
+property bounds the length of the start string or of the words of the language, every other generator stays below
+9 symbols.  `deep_family` asks all four methods (strict / non-strict, both directions, both rankings, windows in the
+thousands) about languages whose words are 1200–3000 symbols long, described by a small spec
+(harness/dfa_succ_deep.py) from which the real DFA is built with the library's constructors and the answer is known
+in closed form; the same templates at depth 3–5 tie the closed forms to the brute-force oracle on every run.
 """
 from __future__ import annotations
 
@@ -49,6 +56,7 @@ from harness import gen
 from harness import dfa_query_lib as L
 from harness import dfa_query_lib3 as L3
 from harness import dfa_history_lib as H
+from harness import dfa_succ_deep as D6
 from harness.common import guarded as case_guard
 from harness.common import Ctx, InfraError, Toks, call, enc_dfa, toks
 
@@ -68,7 +76,15 @@ RULE = ("cases = (valid DFA, start string or None, strict, key (None / int- / tu
         "chains on shaped random DFAs, each answer judged by the sorted filter with the ranking of that moment; round 4: "
         "the same chains on an object DERIVED (complement / ~ / copy / to_complete / to_partial / minify / boolean "
         "operations) from a source that was queried before (isempty / isfinite / lengths / cardinality / iteration / "
-        "counting / successor searches), judged on the derived object's own definition")
+        "counting / successor searches), judged on the derived object's own definition; round 6 (deep family): 11 languages "
+        "given by a spec whose words are 1200–3000 symbols long (depths drawn from the rng: finite languages with one or "
+        "several deep words, DFA.of_length with min/max in the thousands over {a} and {a,b} incl. max_length=None, "
+        "hand-written chains with side branch / trap state / a cycle of 3 states at the end / a cycle that cannot be left, "
+        "x*y*) × 5–12 calls each (85 in all: successor / successors / predecessor / predecessors / successors(reverse=True), "
+        "strict and not, code-point and reversed ranking, start None / '' / short / deep accepted / deep readable / deep "
+        "unreadable, min_length / max_length windows in the thousands), answers in closed form from the construction "
+        "(no model round trip), plus the same 85 templates at depth 3–5 where the closed form is compared with the "
+        "brute-force sorted filter")
 F13_KEY = "C14:start-string-with-foreign-symbol"
 F14_KEY = "C14:empty-alphabet"
 
@@ -83,7 +99,9 @@ ASSUMPTIONS = [
 ]
 EXPLANATION = ("Theorems C14_* relate the model's stack machine to the sorted filter of the window set; this "
                "run ties the model to the code by differential execution and evaluates the property on the "
-               "real code with a brute-force sorted filter.")
+               "real code with a brute-force sorted filter; for words beyond the reach of brute force (1200–3000 "
+               "symbols: deep family) the property is evaluated with closed-form answers derived from the construction "
+               "of the language, without a model round trip.")
 
 FUEL = 30000
 TIMEOUT_S = 10
@@ -1060,6 +1078,333 @@ def derived_chain_family(ctx: Ctx, n_random: int):
         n_bad += len([f for f in ctx.prop_fails if f["key"] is None]) - before
 
 
+# ------------------------------------------------------------------ round 6: DEEP successor searches (size thresholds)
+# The property bounds neither the length of the start string nor the length of the words of the language; every
+# other generator of this module stays below 9 symbols (the brute-force oracle enumerates Σ^≤hi).  A traversal that
+# is only right while its words are short — a recursive walk (recursion limit ≈ depth 990), a stack copied per
+# level, a prefix re-joined per step — passes all of them.  Here the start string and / or the answer is
+# 1200–3000 symbols deep: languages given by a small spec (harness/dfa_succ_deep.py: finite languages with a
+# 1200–3000-symbol word, DFA.of_length with bounds in the thousands over 1 and 2 symbols, hand-written chains with
+# side branch / trap state / a short cycle at the end, x*y*), answers known in CLOSED FORM from the construction
+# (no model round trip), each of the four methods, strict and non-strict, both directions, both rankings, windows
+# in the thousands.  Every template is also instantiated at a scaled-down size (depth 3–5) where its closed-form
+# answer is compared with the brute-force sorted filter through the real accepts_input (ChainOracle): the closed
+# forms are tested on every run by the oracle the rest of this module uses.
+DEEP_TIMEOUT_S = 10
+
+
+def deep_templates(rng, small: bool):
+    """[(spec, [call, …])] — call = dict(call, start_rle, strict, key, keymode, reverse, min, max, n).  The same
+    code produces the deep instances (depth 1200–3000) and their scaled-down twins (depth 3–5)."""
+    def depth(hi=3000):
+        return rng.randint(3, 5) if small else rng.randint(1200, hi)
+
+    groups = []
+
+    def ranking(syms, rev=False):
+        sy = sorted(syms)
+        if rev:
+            return {c: 10 * (len(sy) - i) for i, c in enumerate(sy)}, rng.choice(["int", "int", "tuple", "str"])
+        return {c: i for i, c in enumerate(sy)}, rng.choice(["none", "none", "none_explicit", "int"])
+
+    def group(spec):
+        calls = []
+        groups.append((spec, calls))
+
+        def add(call_, start, strict=True, rev_key=False, min=0, max=None, n=3):
+            key, keymode = ranking(spec["syms"], rev_key)
+            reverse = call_ in ("predecessor", "predecessors", "successors_reverse")
+            calls.append(dict(call="successors" if call_ == "successors_reverse" else call_, start_rle=start, strict=strict,
+                              key=key, keymode=keymode, reverse=reverse, min=min, max=max,
+                              n=n if call_.startswith(("successors", "predecessors")) else 1))
+        return add
+
+    # ---- x*y*: a shallow automaton, deep words (narrow windows: the window set has k+1 words of each length k)
+    D = depth(1800)
+    add = group(dict(kind="blocks", syms=["a", "b"], trap=rng.random() < 0.5))
+    add("successor", [["a", D]], min=D, max=D + 1)
+    add("successor", [["a", D], ["b", 1]], min=D - 1, max=D + 1)
+    add("successors", [["a", D - 1]], min=D, max=D, n=3)
+    add("successor", [["a", D]], strict=False, min=D, max=D)
+    add("successors", [["a", D - 1], ["b", 1]], rev_key=True, min=D, max=D, n=2)
+    add("successor", [["b", D]], min=D - 1, max=D)
+    add("predecessor", [["a", D]])                                    # infinite language: refused
+    add("successors_reverse", [["a", 2]], max=D, n=1)                 # … also with a max length
+    # ---- finite languages with one deep word
+    h = depth() // 2
+    lw = [["ab", h]]
+    add = group(dict(kind="finite_language", syms=["a", "b"], words=[[], [["a", 1]], lw]))
+    add("successor", [["a", 1]])
+    add("predecessors", [["b", 1]], n=4)
+    add("predecessor", lw + [["a", 1]])
+    add("successors", None, n=4)
+    add("predecessor", None)
+    add("successor", lw, strict=False)
+    add("successor", lw)
+    add("predecessor", lw)
+    add("successors", [], min=2, n=2)
+    add("predecessor", [["b", 1]], max=2 * h - 1)
+    add("successor", [["b", 1]], rev_key=True)
+    add("successors_reverse", lw + [["b", 2]], strict=False, min=1, n=3)
+    D = depth()
+    add = group(dict(kind="finite_language", syms=["a", "b"],
+                     words=[[["a", D]], [["a", D - 1], ["b", 1]], [["a", D - 2], ["b", 1], ["a", 1]], [["b", 1]], [["b", D]]]))
+    add("successors", None, n=6)
+    add("predecessors", None, n=6)
+    add("successor", [["a", D]])
+    add("successor", [["a", D - 1], ["b", 1]])
+    add("predecessor", [["b", D]], min=D)
+    add("predecessors", [["b", D + 1]], strict=False, n=2)
+    add("successor", [["a", D - 1]], rev_key=True)
+    add("predecessor", [["a", D - 2], ["b", 1]], rev_key=True, strict=False)
+    add("successors", [["a", D - 2], ["b", 2]], min=2, max=D, n=3)       # an unreadable deep start string
+    # ---- DFA.of_length, bounds in the thousands
+    D = depth()
+    add = group(dict(kind="of_length", syms=["a"], lo=D, hi=D))
+    add("successor", None)
+    add("successor", [])
+    add("predecessor", None)
+    add("successor", [["a", D]])
+    add("successor", [["a", D]], strict=False)
+    add("predecessors", [["a", D + 5]], n=2)
+    add("successors", [], min=D - 1, max=D + 1, n=3)
+    D = depth()
+    k = rng.randint(1, D - 1)
+    add = group(dict(kind="of_length", syms=["a", "b"], lo=D, hi=D))
+    add("successors", [["a", D - 1]], n=3)
+    add("predecessor", None)
+    add("successor", [["b", D]])
+    add("predecessors", [["a", D - 1], ["b", 1], ["a", 1]], n=3)
+    add("successor", [["a", k], ["b", D - k]])
+    add("predecessor", [["b", k], ["a", D - k]])
+    add("successor", [["b", 1]], rev_key=True)
+    add("predecessor", [["a", D - k], ["b", k]], strict=False)
+    add("successors_reverse", [["b", D + 2]], rev_key=True, min=D, n=2)
+    D = depth()
+    add = group(dict(kind="of_length", syms=["a"], lo=rng.randint(0, 3), hi=None))       # a chain ending in a self-loop
+    add("successors", [["a", 2]], min=D, max=D + 2, n=4)
+    add("successor", [["a", D]], max=D + 5)
+    add("predecessor", [["a", D]])
+    add("successor", [["a", D]], max=D)
+    add("successor", [["a", D]], strict=False, max=D)
+    D = depth()
+    add = group(dict(kind="of_length", syms=["a", "b"], lo=0, hi=None))
+    add("successor", [["a", D], ["b", 1]], max=D + 1)
+    add("successors", None, min=D, max=D, n=2)
+    add("successor", [["b", D + 1]], max=D + 1)
+    add("successor", [["b", D]], min=D - 1, max=D)
+    add("successor", [["a", D - 3], ["b", 3]], max=D)
+    add("successors", [["b", D - 1], ["a", 1]], rev_key=True, min=D - 1, max=D, n=3)
+    D = depth()
+    add = group(dict(kind="of_length", syms=["a", "b"], lo=D - 2, hi=D))
+    add("predecessors", None, n=3)
+    add("predecessor", [["a", D - 2]])
+    add("predecessor", [["a", D - 2], ["b", 1]], min=D - 1)
+    add("predecessor", [["b", 1]], max=D - 1)
+    add("successor", [["b", D - 2]], rev_key=True, strict=False)
+    # ---- hand-written chains
+    n = depth()
+    kf = rng.randint(1, n - 1)
+    j = rng.randint(1, n - 1)
+    ln = rng.randint(1, 4)
+    pat = "ab"
+    spine = lambda m: [[pat, m // 2]] + ([[pat[0], 1]] if m % 2 else [])
+    add = group(dict(kind="chain", syms=["a", "b", "c"], n=n, pat=pat, finals=[kf, n], back=None, branch=[j, "c", ln],
+                     trap=rng.random() < 0.5))
+    add("successor", None)
+    add("successors", None, n=4)
+    add("predecessor", None)
+    add("predecessors", None, n=4)
+    add("successor", spine(kf))
+    add("predecessor", spine(n))
+    add("successor", spine(n - 1) + [["c", 1]])                          # unreadable, n symbols deep
+    add("predecessor", spine(n - 1) + [["c", 1]])
+    add("successor", spine(j) + [["c", ln - 1]], strict=False)
+    add("successors", [], min=n, n=2)
+    add("predecessors", spine(n) + [["c", 2]], rev_key=True, n=4)
+    add("successor", spine(2), rev_key=True)
+    n = rng.randint(3, 4) if small else depth()
+    far, m1, m2 = (3, 4, 4) if small else (300, 10, 7)
+    pat = "abc"
+    spine3 = lambda m: [[pat, m // 3]] + ([[pat[: m % 3], 1]] if m % 3 else [])
+    add = group(dict(kind="chain", syms=["a", "b", "c"], n=n, pat=pat, finals=[n], back=n - 2, branch=None, trap=False))
+    add("successor", None, max=n + m1)                                    # a chain ending in a cycle of 3 states
+    add("successors", spine3(n), max=n + m2, n=4)
+    add("successors", None, min=n + 1, max=n + m1 - 1, n=4)
+    add("predecessor", spine3(n))
+    add("successor", spine3(n + far), strict=False, max=n + far + 2)
+    add("successor", spine3(n + far), max=n + far + 2)
+    add("successors", spine3(n - 1) + [["c" if (n - 1) % 3 != 2 else "a", 1]], rev_key=True, max=n + 3, n=2)
+    n = depth()
+    t = n - rng.randint(1, min(3, n - 2))
+    kf = rng.randint(1, t - 1)
+    add = group(dict(kind="chain", syms=["a", "b"], n=n, pat="ab", finals=[kf], back=t, branch=None, trap=rng.random() < 0.5))
+    spine = lambda m: [["ab", m // 2]] + ([["a", 1]] if m % 2 else [])      # a cycle nobody can leave: the language is finite
+    add("predecessor", None)
+    add("successor", None)
+    add("predecessors", spine(n + 50), n=2)
+    add("successor", spine(kf))
+    add("successor", spine(kf), strict=False, min=kf)
+    return groups
+
+
+def show_deep_call(p: dict) -> str:
+    args = [D6.show_rle(p["start_rle"])]
+    if not p["strict"]:
+        args.append("strict=False")
+    mode = p.get("keymode", "int")
+    if mode != "none":
+        order = "".join(sorted(p["key"], key=lambda c: p["key"][c]))
+        args.append("key=None" if mode == "none_explicit" else f"key=<{mode}: {order}>")
+    if p["call"] == "successors" and p["reverse"]:
+        args.append("reverse=True")
+    if p["min"]:
+        args.append(f"min_length={p['min']}")
+    if p["max"] is not None:
+        args.append(f"max_length={p['max']}")
+    txt = f"{p['call']}({', '.join(args)})"
+    return txt if p["call"] in ("successor", "predecessor") else f"first {p['n']} of {txt}"
+
+
+def deep_call(d: DFA, p: dict):
+    """One real call (the start string written out), under the wall-clock guard."""
+    q = dict(p, start=D6.word(p["start_rle"]))
+    return L.guarded(lambda: chain_call_raw(d, q, None), DEEP_TIMEOUT_S)
+
+
+def deep_judge(lang: "D6.DeepSuccLang", p: dict, got):
+    """None, or what is wrong with the observation (closed-form expectation)."""
+    exp = D6.expected(lang, dict(p, start=D6.word(p["start_rle"])))
+    if got == exp:
+        return None
+    shown = f"no answer within {DEEP_TIMEOUT_S} s" if got == ("err", "_Timeout") else f"= {D6.short(got)}"
+    return f"{shown}, the language dictates {D6.short(exp)}"
+
+
+def run_deep_case(spec: dict, p: dict):
+    """Build the automaton afresh from the spec, make the call, judge it.  Returns (message or None, observation)."""
+    lang = D6.DeepSuccLang(spec)
+    d = lang.build()
+    got = deep_call(d, p)
+    return deep_judge(lang, p, got), got
+
+
+def deep_membership_ok(ctx: Ctx, lang, d: DFA, p: dict, exp) -> bool:
+    """Tie the closed form to the object that was built: the words it names are accepted by the real accepts_input
+    (an iterative read: no depth limit), near misses are judged alike by both."""
+    if exp[0] != "ok":
+        return True
+    ws = exp[1] if isinstance(exp[1], list) else ([exp[1]] if exp[1] is not None else [])
+    for w in ws[:3]:
+        probes = [w, w + lang.syms[0], w + lang.syms[-1]] + ([w[:-1], w[:-1] + lang.syms[0], w[:-1] + lang.syms[-1]] if w else [])
+        for x in probes:
+            if lang.member(x) != d.accepts_input(x):
+                ctx.stat("deep:closed_form_membership_differs_from_accepts_input")
+                ctx.corr_diff("DEEP membership", dict(automaton=lang.expr(), word=D6.short(x)), d.accepts_input(x), lang.member(x))
+                return False
+    return True
+
+
+@case_guard
+def check_deep_group(ctx: Ctx, spec: dict, calls, small: bool):
+    tag = "deep_twin" if small else "deep"
+    lang = D6.DeepSuccLang(spec)
+    built = call(lang.build)
+    if built[0] == "err":
+        ctx.stat(f"{tag}:construction_raised:{built[1]}")
+        ctx.corr_diff("DEEP build", dict(automaton=lang.expr()), built[1], "a DFA (C15 owns the constructors)")
+        return
+    d = built[1]
+    orc = None
+    if small:
+        orc = ChainOracle(d)
+        if not orc.feasible():          # ChainOracle enumerates up to 5000 words by itself; the twins may need a few more
+            if len(d.input_symbols) ** orc.hi > 20000:
+                ctx.stat("deep_twin:too_large_for_brute_force")
+                return
+            orc.bw = L.brute_words(d, orc.hi)
+    ctx.stat(f"{tag}:automata")
+    ctx.stat(f"{tag}:spec:{spec['kind']}" + (":unary" if len(spec["syms"]) == 1 else ""))
+    ctx.stat(f"{tag}:lang:{'finite' if lang.finite() else 'infinite'}")
+    if not small:
+        ns = len(d.states)
+        ctx.stat("deep:states:" + ("<10" if ns < 10 else "1000-1999" if ns < 2000 else "2000-2999" if ns < 3000 else "≥3000"))
+    for p in calls:
+        if hanging(ctx, 4):
+            return
+        start = D6.word(p["start_rle"])
+        q = dict(p, start=start)
+        exp = D6.expected(lang, q)
+        if small:
+            # the closed form against the brute-force sorted filter through the real accepts_input
+            if not chain_step_in_domain(d, q, orc.shape):
+                ctx.stat("deep_twin:template_outside_domain")
+                continue
+            bf = orc.expected(q)
+            ctx.stat("deep_twin:closed_form_compared_with_brute_force")
+            if bf != exp:
+                ctx.stat("deep_twin:closed_form_differs_from_brute_force")
+                ctx.corr_diff("DEEP oracle", dict(automaton=lang.expr(), call=show_deep_call(p)), bf, exp)
+                continue
+        elif not deep_membership_ok(ctx, lang, d, p, exp):
+            continue
+        got = deep_call(d, p)
+        bad = deep_judge(lang, p, got)
+        deepest = max([len(start or "")] + [len(w) for w in (exp[1] if isinstance(exp[1], list) else [exp[1]])
+                                             if isinstance(w, str)]) if exp[0] == "ok" else len(start or "")
+        ctx.case((tag, json.dumps(spec, sort_keys=True), json.dumps(p, sort_keys=True))
+                 if exp[0] == "ok" and exp[1] not in (None, []) else None)
+        ctx.stat(f"{tag}:call:{p['call']}" + (":reverse" if p["call"] == "successors" and p["reverse"] else ""))
+        if not small:
+            ctx.stat("deep:judged_by_closed_form(no_model_round_trip)")
+            ctx.stat("deep:" + ("strict" if p["strict"] else "non_strict") + (":reverse" if p["reverse"] else ":forward"))
+            ctx.stat(f"deep:key:{p['keymode']}")
+            ctx.stat("deep:start:" + ("None" if start is None else "empty" if start == "" else
+                                      "≥1000_symbols" if len(start) >= 1000 else "short"))
+            if start:
+                ctx.stat("deep:start:" + ("accepted" if lang.member(start) else "readable_not_accepted" if readable(d, start)
+                                          else "unreadable"))
+            ctx.stat("deep:deepest_word_involved:" + ("≥2000" if deepest >= 2000 else "1000-1999" if deepest >= 1000 else "<1000"))
+            if p["min"] >= 1000:
+                ctx.stat("deep:window:min_length≥1000")
+            if p["max"] is not None and p["max"] >= 1000:
+                ctx.stat("deep:window:max_length≥1000")
+            if exp[0] == "err":
+                ctx.stat("deep:expect:InfiniteLanguageException")
+            elif exp[1] in (None, []):
+                ctx.stat("deep:expect:nothing")
+            elif isinstance(exp[1], list):
+                ctx.stat("deep:expect:" + ("exhausted" if len(exp[1]) < p["n"] else "prefix"))
+            else:
+                ctx.stat("deep:expect:a_word")
+            if ctx.stats.get("deep:judged_by_closed_form(no_model_round_trip)", 0) % 25 == 1:
+                ctx.sample(dict(automaton=lang.expr(), call=show_deep_call(p), real=D6.short(got), expected=D6.short(exp)))
+        if bad is None:
+            continue
+        # re-confirm on an object built afresh from the spec (what the replay does)
+        again, got2 = run_deep_case(spec, p)
+        if again is None:
+            ctx.stat(f"{tag}:failure_not_reproduced_on_a_fresh_object")
+            ctx.corr_diff("DEEP not reproduced", dict(automaton=lang.expr(), call=show_deep_call(p)), D6.short(got), D6.short(got2))
+            continue
+        ctx.stat(f"{tag}:property_failures")
+        what = f"{show_deep_call(p)} on {lang.expr()} {again}"
+        ctx.prop_fail(what, dict(automaton=lang.expr(), params=dict(deep=dict(spec=spec, call=p)), what=what), None)
+
+
+def deep_family(ctx: Ctx):
+    rng = ctx.rng
+    try:
+        ctx.stat("deep:closed_form_selftest_comparisons", D6.selftest())
+    except AssertionError as e:
+        raise InfraError(f"deep family: closed form wrong on a small instance: {e}")
+    for small in (True, False):
+        for spec, calls in deep_templates(rng, small):
+            if hanging(ctx, 4):
+                return
+            check_deep_group(ctx, spec, calls, small)
+
+
 # ------------------------------------------------------------------ corpus
 def corpus():
     a = {"a"}
@@ -1147,6 +1492,7 @@ def run(ctx: Ctx):
         if codepoint_order(d.input_symbols, p["key"]) and i % 2 == 0:
             p["keymode"] = "none"
         check_case(ctx, d, enc, sy, L.language_shape(d), p, "corpus")
+    deep_family(ctx)
     chain_family(ctx)
     derived_chain_family(ctx, ctx.budget(160, 3500))
     finding_probes(ctx)
@@ -1229,8 +1575,17 @@ def run(ctx: Ctx):
 def replay(ctx: Ctx, path: str) -> int:
     data = json.load(open(path))
     rp = data.get("replay", data)
-    d = eval(rp["automaton"], {"DFA": DFA, "frozenset": frozenset})
     p = rp["params"]
+    if "deep" in p:
+        # the automaton is rebuilt from its spec through the library's constructors, the expectation is the closed form
+        bad, got = run_deep_case(p["deep"]["spec"], p["deep"]["call"])
+        if bad:
+            print(f"VIOLATION property=C14 replay={path}")
+            print(f"  {show_deep_call(p['deep']['call'])} on {rp['automaton']} {bad}")
+            return 1
+        print("replay: property holds on this input now")
+        return 0
+    d = eval(rp["automaton"], {"DFA": DFA, "frozenset": frozenset})
     if "derived" in p:
         dp = p["derived"]
         other = eval(dp["other"], {"DFA": DFA, "frozenset": frozenset}) if dp.get("other") else None
